@@ -484,6 +484,305 @@ def xcheck_bels(x, rnd, scale):
 
 
 # =============================================================================
+# dstu
+# =============================================================================
+
+DSTU_SIZEOF = 272      # u16 p[4] @0, A @8, B[64] @9, n[64] @73, (3 pad) u32 c @140, P[128] @144
+DSTU_OFF_P = 144
+
+
+def xcheck_dstu(x, rnd, scale):
+    import dstu as M
+    for name, P0 in M.PARAMS.items():
+        x.reset()
+        prm = x.out(DSTU_SIZEOF)
+        assert x.call('dstuParamsStd', prm, cstr(x, name)) == 0
+        raw = prm.read()
+        assert tuple(int.from_bytes(raw[2 * i:2 * i + 2], 'little') for i in range(4)) == P0.p
+        assert raw[8] == P0.A
+        assert int.from_bytes(raw[9:73], 'little') == P0.B
+        assert int.from_bytes(raw[73:137], 'little') == P0.n
+        assert int.from_bytes(raw[140:144], 'little') == P0.c
+        m, no, n = P0.m, P0.no, P0.n
+        ono, onb = P0.order_no, P0.order_nb
+        big = m > 260
+        cnt('dstu.params')
+
+        # ---- base point: dstuPointGen against 6.8
+        ngen = 2 if not big else 1
+        base = None
+        for it in range(ngen):
+            t = rnd.randbytes(no * 40)
+            if it == 0:
+                # start with rejected candidates: x = 0 (order 2 point), then bits above m set
+                t = bytes(no) + t
+            tp = x.tape(t)
+            pt = x.buf(b"\xCC" * (2 * no))
+            tm = M.Tape(t)
+            try:
+                mp = M.point_gen(P0, tm)
+            except EOFError:
+                continue
+            try:
+                err = x.call('dstuPointGen', pt, prm, GEN, tp)
+                lib = (err, pt.read().hex(), int.from_bytes(tp.read(0, 8), 'little'))
+            except Crash as c:
+                crash('dstuPointGen', '%s tape=%s' % (name, hx(t[:4 * no]) + '...'), c, hx(mp))
+                prm = x.out(DSTU_SIZEOF); x.call('dstuParamsStd', prm, cstr(x, name))
+                lib = None
+            if lib is not None and lib != (0, mp.hex(), tm.pos):
+                dis('dstuPointGen', '%s tape=%s...' % (name, hx(t[:6 * no])), lib, (mp.hex(), tm.pos),
+                    'model: 6.6 solution z = htr(w/u^2) * u')
+            cnt('dstu.pointgen')
+            base = mp
+        if P0.P is not None:
+            # appendix base point stays for the first curve; also use a generated one for half of the work
+            lp = raw[DSTU_OFF_P:DSTU_OFF_P + 2 * no]
+            assert lp == M.point_enc(P0, P0.P)
+            P = P0
+        else:
+            P = P0.with_base(M.point_dec(P0, base))
+            prm.write(base, DSTU_OFF_P)
+        err = x.call('dstuParamsVal', prm)
+        if err != 0:
+            dis('dstuParamsVal', name + ' with model-generated base point', err, 'valid')
+        cnt('dstu.paramsval')
+        sqrtB = M.f_sqrt(P, P.B)
+        T2 = (0, sqrtB)                                   # the point of order 2
+
+        def rand_point(sub=None):
+            """random curve point; sub=True: in the subgroup of order n, sub=False: not"""
+            while True:
+                u = rnd.getrandbits(m)
+                u2 = M.f_sqr(P, u)
+                z = M.qsolve(P, u, M.f_mul(P, u2, u) ^ (u2 if P.A else 0) ^ P.B)
+                if z is None or u == 0:
+                    continue
+                if rnd.random() < 0.5:
+                    z ^= u
+                if sub is None or (M.trace(P, u) == P.A) == sub:
+                    return (u, z)
+
+        # ---- dstuPointVal
+        pts = [('base', P.P), ('T2', T2), ('(0,0)', (0, 0)), ('sub', rand_point(True)), ('nonsub', rand_point(False)),
+               ('base+T2', M.ec_add(P, P.P, T2))]
+        q = rand_point(True)
+        pts.append(('offcurve', (q[0], q[1] ^ 1)))
+        pts.append(('x>=2^m', (q[0] | (1 << m), q[1])) if 8 * no > m else ('sub2', rand_point(True)))
+        pts.append(('y>=2^m', (q[0], q[1] | (1 << (8 * no - 1)))) if 8 * no > m else ('sub3', rand_point(True)))
+        for (w, pt) in pts:
+            enc = pt[0].to_bytes(no, 'little') + pt[1].to_bytes(no, 'little')
+            try:
+                err = x.call('dstuPointVal', prm, x.buf(enc))
+            except Crash as c:
+                crash('dstuPointVal', '%s %s %s' % (name, w, hx(enc)), c, M.point_val(P, enc))
+                continue
+            mv = M.point_val(P, enc)
+            if (err == 0) != mv:
+                dis('dstuPointVal', '%s %s point=%s' % (name, w, hx(enc)), err, mv)
+            cnt('dstu.pointval')
+
+        # ---- compress / recover
+        cps = [('base', P.P), ('T2 (x=0)', T2), ('(0,0)', (0, 0))]
+        cps += [('sub', rand_point(True)) for _ in range(3 * scale)] + [('nonsub', rand_point(False)) for _ in range(2 * scale)]
+        cps += [('-sub', M.ec_neg(P, rand_point(True)))]
+        for (w, pt) in cps:
+            enc = M.point_enc(P, pt)
+            xp = x.buf(b"\xCC" * no)
+            try:
+                err = x.call('dstuPointCompress', xp, prm, x.buf(enc))
+                lib = (err, xp.read().hex())
+            except Crash as c:
+                crash('dstuPointCompress', '%s %s %s' % (name, w, hx(enc)), c, hx(M.point_compress(P, enc)))
+                continue
+            mc = M.point_compress(P, enc)
+            if lib != (0, mc.hex()):
+                dis('dstuPointCompress', '%s %s point=%s (xpoint buffer prefilled with CC)' % (name, w, hx(enc)), lib, hx(mc),
+                    '6.9: x = 0 -> compressed point is 0' if pt[0] == 0 else '')
+            cnt('dstu.compress')
+            # recover from the model's compressed form
+            out = x.buf(b"\xCC" * (2 * no))
+            try:
+                err = x.call('dstuPointRecover', out, prm, x.buf(mc))
+                lib = (err, out.read().hex())
+            except Crash as c:
+                crash('dstuPointRecover', '%s %s xpoint=%s' % (name, w, hx(mc)), c, hx(M.point_recover(P, mc)))
+                continue
+            mr = M.point_recover(P, mc)
+            if (lib[0] == 0) != (mr is not None) or (mr is not None and lib[1] != mr.hex()):
+                dis('dstuPointRecover', '%s %s xpoint=%s (point buffer prefilled with CC)' % (name, w, hx(mc)), lib, hx(mr),
+                    '6.10: xpoint = 0 -> (0, sqrt(B))' if pt[0] == 0 else '')
+            if w in ('base', 'sub', '-sub') and mr != enc:
+                dis('dstu.model', 'round trip failed ' + hx(enc), '', hx(mr))
+            cnt('dstu.recover')
+        xps = [1, 2, 3, (1 << m) - 1, 1 << (m - 1)] + [rnd.getrandbits(m) for _ in range(4 * scale)]
+        if 8 * no > m:
+            xps += [1 << m, (1 << (8 * no)) - 1, P.P[0] | (1 << m)]
+        for xpv in xps:
+            xpb = xpv.to_bytes(no, 'little')
+            out = x.buf(b"\xCC" * (2 * no))
+            try:
+                err = x.call('dstuPointRecover', out, prm, x.buf(xpb))
+                lib = (err, out.read().hex())
+            except Crash as c:
+                crash('dstuPointRecover', '%s xpoint=%s' % (name, hx(xpb)), c, hx(M.point_recover(P, xpb)))
+                continue
+            mr = M.point_recover(P, xpb)
+            if (lib[0] == 0) != (mr is not None) or (mr is not None and lib[1] != mr.hex()):
+                dis('dstuPointRecover', '%s xpoint=%s' % (name, hx(xpb)), lib, hx(mr))
+            cnt('dstu.recover')
+
+        # ---- keys
+        hi = (1 << (onb - 1)) - 1
+        keys = []
+        for d in [1, hi, 2] + [rnd.randrange(1, hi + 1) for _ in range(1 * scale)]:
+            pre = bytes(ono) if rnd.random() < 0.5 else b""
+            if rnd.random() < 0.5 and 8 * ono > onb - 1:
+                pre += (1 << (onb - 1)).to_bytes(ono, 'little')         # trimmed to 0 -> rejected
+            top = rnd.getrandbits(8 * ono - (onb - 1)) << (onb - 1)
+            t = pre + (d | top).to_bytes(ono, 'little')
+            priv, pub = x.out(ono), x.out(2 * no)
+            tp = x.tape(t)
+            try:
+                err = x.call('dstuKeypairGen', priv, pub, prm, GEN, tp)
+                lib = (err, priv.read().hex(), pub.read().hex(), int.from_bytes(tp.read(0, 8), 'little'))
+            except Crash as c:
+                crash('dstuKeypairGen', '%s tape=%s' % (name, hx(t)), c, None)
+                lib = None
+            mk = M.keypair_from_tape(P, t)
+            if lib is not None and lib != (0, mk[0].hex(), mk[1].hex(), len(t)):
+                dis('dstuKeypairGen', '%s tape=%s' % (name, hx(t)), lib, (mk[0].hex(), mk[1].hex(), len(t)))
+            cnt('dstu.keypair')
+            keys.append((d, mk[0], mk[1]))
+        keys.append((n - 1, M.privkey_enc(P, n - 1), M.pubkey_calc(P, n - 1)))       # not reachable by 6.3, admissible for sign
+
+        # ---- sign
+        lds = [16 * ono, 16 * ono + 16, 512 if 512 >= 16 * ono else 16 * ono + 32, 1024]
+        hashes = [bytes(32), b"\xff" * 32, b"\xff" * 64, b"", b"\x00", bytes(no), rnd.randbytes(no), rnd.randbytes(no - 1), rnd.randbytes(no + 1),
+                  rnd.randbytes(32), rnd.randbytes(64), rnd.randbytes(20), bytes(no - 1) + b"\x80" if 8 * no > m else rnd.randbytes(5)]
+        sigs = []
+        nsign = (8 if not big else 4) * scale
+        for i in range(nsign):
+            d, priv, pub = keys[i % len(keys)]
+            h = hashes[i] if i < len(hashes) and not big else rnd.choice(hashes)
+            ld = rnd.choice(lds)
+            e = rnd.choice([1, hi, rnd.randrange(1, hi + 1), rnd.randrange(1, hi + 1)])
+            t = (bytes(ono) if rnd.random() < 0.3 else b"") + e.to_bytes(ono, 'little') + rnd.randrange(1, hi + 1).to_bytes(ono, 'little')
+            sig = x.out(ld // 8)
+            try:
+                err = x.call('dstuSign', sig, prm, ld, x.buf(h), len(h), x.buf(priv), GEN, x.tape(t))
+                lib = (err, sig.read().hex())
+            except Crash as c:
+                crash('dstuSign', '%s ld=%d hash=%s d=%s tape=%s' % (name, ld, hx(h), hx(priv), hx(t)), c, None)
+                lib = None
+            ms = M.sign(P, ld, h, priv, t)
+            if lib is not None and lib != (0, ms.hex()):
+                dis('dstuSign', '%s ld=%d hash=%s d=%s tape=%s' % (name, ld, hx(h), hx(priv), hx(t)), lib, hx(ms))
+            cnt('dstu.sign')
+            sigs.append((ld, h, ms, pub, d))
+        # bad ld / bad privkey
+        d, priv, pub = keys[0]
+        for ld in (16 * ono - 16, 16 * ono + 8, 16 * ono + 1, 0):
+            sig = x.out(max(ld // 8, 1) + 8)
+            try:
+                err = x.call('dstuSign', sig, prm, ld, x.buf(bytes(32)), 32, x.buf(priv), GEN, x.tape(rnd.randbytes(4 * ono)))
+            except Crash as c:
+                crash('dstuSign', '%s bad ld=%d' % (name, ld), c, 'error')
+                continue
+            if err == 0:
+                dis('dstuSign', '%s ld=%d' % (name, ld), err, 'ERR_BAD_INPUT expected (ld %% 16 == 0, ld >= 16 * order_no)')
+            cnt('dstu.sign_bad')
+        for dbad in (0, n, n + 1, (1 << (8 * ono)) - 1):
+            if dbad >> (8 * ono):
+                continue
+            sig = x.out(2 * ono)
+            try:
+                err = x.call('dstuSign', sig, prm, 16 * ono, x.buf(bytes(32)), 32, x.buf(dbad.to_bytes(ono, 'little')), GEN, x.tape(rnd.randbytes(4 * ono)))
+                lib = (err, sig.read().hex())
+            except Crash as c:
+                crash('dstuSign', '%s privkey=%s (not in 1..n-1)' % (name, hx(dbad.to_bytes(ono, 'little'))), c, 'ERR_BAD_PRIVKEY')
+                prm = x.out(DSTU_SIZEOF); x.call('dstuParamsStd', prm, cstr(x, name)); prm.write(M.point_enc(P, P.P), DSTU_OFF_P)
+                continue
+            if err == 0:
+                dis('dstuSign', '%s privkey=%s (d = %s)' % (name, hx(dbad.to_bytes(ono, 'little')), 'n + %d' % (dbad - n) if dbad >= n else '0'), lib,
+                    'ERR_BAD_PRIVKEY expected by dstu.h (0 < d < n)')
+            cnt('dstu.sign_bad')
+
+        # ---- verify
+        def both(ld, h, sig, pub, what):
+            try:
+                err = x.call('dstuVerify', prm, ld, x.buf(h), len(h), x.buf(sig), x.buf(pub))
+            except Crash as c:
+                crash('dstuVerify', '%s %s ld=%d hash=%s sig=%s pub=%s' % (name, what, ld, hx(h), hx(sig), hx(pub)), c, M.verify(P, ld, h, sig, pub))
+                return None
+            mv = M.verify(P, ld, h, sig, pub)
+            if (err == 0) != mv:
+                dis('dstuVerify', '%s %s ld=%d hash=%s sig=%s pub=%s' % (name, what, ld, hx(h), hx(sig), hx(pub)), err, mv)
+            cnt('dstu.verify')
+            return err
+
+        for (ld, h, sig, pub, d) in sigs:
+            both(ld, h, sig, pub, 'valid')
+        nalt = (4 if not big else 2) * scale
+        for (ld, h, sig, pub, d) in rnd.sample(sigs, min(len(sigs), nalt)):
+            half = ld // 16
+            bits = rnd.sample(range(8 * ono), 2) + [0, 8 * half + 1]
+            if half > ono:
+                bits += [8 * ono, 8 * half - 1, 8 * (half + ono), 16 * half - 1]       # padding octets must stay zero
+            for i in bits:
+                both(ld, h, flip(sig, i), pub, 'sig bit %d' % i)
+            for i in rnd.sample(range(16 * no), 3) + [0, 8 * no]:
+                both(ld, h, sig, flip(pub, i), 'pub bit %d' % i)
+            if len(h):
+                for i in [0, rnd.randrange(8 * len(h)), 8 * len(h) - 1]:
+                    both(ld, flip(h, i), sig, pub, 'hash bit %d (len %d)' % (i, len(h)))
+            r = int.from_bytes(sig[:half], 'little'); s = int.from_bytes(sig[half:], 'little')
+            for (r2, s2, w) in [(0, s, 'r=0'), (r, 0, 's=0'), (n, s, 'r=n'), (r, n, 's=n'), (r + n, s, 'r+n'), (r, s + n, 's+n')]:
+                if not r2 >> (8 * half) and not s2 >> (8 * half):
+                    both(ld, h, r2.to_bytes(half, 'little') + s2.to_bytes(half, 'little'), pub, w)
+            # same h from a longer / truncated hash
+            hv = int.from_bytes(h, 'little')
+            if len(h) >= no:
+                both(ld, (hv & ((1 << m) - 1)).to_bytes(no, 'little'), sig, pub, 'hash truncated to m bits')
+                both(ld, h + b"\xA5", sig, pub, 'hash extended')
+            else:
+                both(ld, h + bytes(no + 3 - len(h)), sig, pub, 'hash zero-extended')
+            if hv & ((1 << m) - 1) == 0:
+                both(ld, b"\x01", sig, pub, 'hash 0 -> 1')
+            Q = M.point_dec(P, pub)
+            both(ld, h, sig, M.point_enc(P, M.ec_neg(P, Q)), '-Q')
+            both(ld, h, sig, bytes(2 * no), 'Q=(0,0)')
+            both(ld, h, sig, M.point_enc(P, T2), 'Q=T2 (order 2)')
+            both(ld, h, sig, M.point_enc(P, M.ec_add(P, Q, T2)), 'Q+T2 (order 2n)')
+            both(ld, h, sig, rnd.choice(keys)[2], 'other Q')
+            # different ld for the same r, s
+            ld2 = rnd.choice([l for l in lds if l != ld])
+            both(ld2, h, M.sig_enc(P, ld2, r, s), pub, 'same (r,s) other ld')
+            both(ld2, h, (sig + bytes(128))[:ld2 // 8], pub, 'sig bytes reinterpreted with other ld')
+        # forgery for the invalid key Q = T2 (order 2, on the curve): R = sP + (r odd ? T2 : O)
+        ld = lds[0]
+        h = rnd.randbytes(32)
+        hf = M.hash_to_felem(P, h)
+        found = None
+        for _ in range(12):
+            s = rnd.randrange(1, n)
+            sP = M.ec_mul(P, s, P.P)
+            for R in (sP, M.ec_add(P, sP, T2)):
+                r = M.felem_to_int(P, M.f_mul(P, hf, R[0]))
+                if 0 < r < n and (r & 1) == (R != sP):
+                    found = (r, s)
+            if found:
+                break
+        if found:
+            err = both(ld, h, M.sig_enc(P, ld, *found), M.point_enc(P, T2), 'forged for Q = (0, sqrt(B)) of order 2')
+        # R = O: s P + r Q = O with Q = -dP  <=>  s = r d
+        d, priv, pub = keys[-2]
+        r = rnd.randrange(1, 1 << (onb - 1))
+        both(lds[0], h, M.sig_enc(P, lds[0], r, r * d % n), pub, 'R=O')
+    print("dstu done:", {k: v for k, v in CNT.items() if k.startswith('dstu')})
+
+
+# =============================================================================
 
 def main():
     args = sys.argv[1:]
